@@ -352,6 +352,12 @@ static void case_c12(const drvargs_t *a,long id){
       if(fired_body && truefail && bret>=0 && scn>=2 && scn!=10 && scn!=11){ char key[96]; snprintf(key,sizeof key,"%s-reports-success-although-%s-fired",scnname[scn],fault_name(fk));
         res_viol("C12",key,"%s@%ld %s fired %ld time(s) during %s, which returned %ld (clean run: %ld): %s",fault_name(fk),kk,persist?"persistent":"one-shot",fired_body,scnname[scn],bret,clean_ret,desc); }
       if(bret<0) nerr++;
+      if(bret<0 && scn>=2){ /* the queries an application makes between a failed call and its next attempt (no I/O involved): defined answers, nothing out of bounds */
+        long q1=ov_bitrate_instant(&h.vf); long q2=ov_bitrate(&h.vf,-1); ogg_int64_t q3=ov_pcm_tell(&h.vf), q4=ov_raw_tell(&h.vf); double q5=ov_time_tell(&h.vf); vorbis_info *qi=ov_info(&h.vf,-1); vorbis_comment *qc=ov_comment(&h.vf,-1);
+        res_eval(1); res_count("query_rounds_after_a_failed_call",1);
+        if(!code_ok(q1)||!code_ok(q2)||!code_ok(q3)||!code_ok(q4)) res_viol("C12","return-domain","queries after a failed %s: bitrate_instant %ld bitrate %ld pcm_tell %lld raw_tell %lld: %s",scnname[scn],q1,q2,(long long)q3,(long long)q4,desc);
+        if(qi){ volatile long t=qi->rate+qi->channels; (void)t; } if(qc){ volatile int t=qc->comments; (void)t; } (void)q5;
+      }
       if(bret<0 && persist && scn>=2 && fired_open==0){
         /* the source is still failing: one more call of another kind on the handle whose decode machine the failure dumped (error or EOF, never a crash) */
         int pick=(int)(hash64((uint64_t)id*131u+(uint64_t)kk*7u+(uint64_t)fk)%5); H o2; memset(&o2,0,sizeof o2); long r2=0; float **pcm2; int bs2;
